@@ -46,7 +46,7 @@ func (s scen) run(c *hx.Ctx) *hx.ScenarioResult {
 		}
 		sched.Finish()
 	}
-	return hx.ExploreScenario(c, "C15", s.name(), sched.Options{Bound: s.bound, MaxSteps: 100000, BoundAll: true, NoEarlyClock: true}, body, s.judge)
+	return hx.ExploreScenario(c, "C15", s.name(), sched.Options{Bound: s.bound, MaxSteps: 100000, BoundAll: true, NoEarlyClock: true, HoldBack: true}, body, s.judge)
 }
 
 // expected error type of the first fault of a scenario (nil: not determined by the statement)
